@@ -86,11 +86,11 @@ typedef enum {
 
 
 /* shifts based on type */
-static const unsigned int tsh[] = {
-	[TYP_I] = 401U,
-	[TYP_II] = 301U,
-	[TYP_III] = 1U,
-	[TYP_IV] = -199U,
+static const int tsh[] = {
+	[TYP_I] = 401,
+	[TYP_II] = 301,
+	[TYP_III] = 1,
+	[TYP_IV] = -199,
 };
 
 /* epochs in julian days */
@@ -98,6 +98,15 @@ static const unsigned int epo[] = {
 	[EPO_CIVIL] = 1948084U,
 	[EPO_ASTRO] = 1948085U,
 };
+
+static inline __attribute__((const, pure)) int
+hij_ybeg(hij_typ_t t, int k)
+{
+/* days of the 30 year cycle before year K, floor((K * 10631 + shift) / 30),
+ * K = 0 has a negative numerator for type IV, K = -1 for all types */
+	const int n = k * 1063100 + tsh[t];
+	return n >= 0 ? n / 3000 : -((2999 - n) / 3000);
+}
 
 static inline __attribute__((const, pure)) mjd_t
 ht2mjd(const unsigned int *cal, size_t nm, struct ymd_s h)
@@ -119,7 +128,7 @@ hij2mjd(hij_typ_t t, hij_epo_t e, struct ymd_s h)
 	const unsigned int doy = m[h.m] + h.d;
 	const unsigned int cyc = h.y / 30U;
 	const unsigned int k = h.y % 30U;
-	const unsigned int z1 = cyc * 10631U + (k * 1063100U + tsh[t]) / 3000U + doy;
+	const unsigned int z1 = cyc * 10631U + hij_ybeg(t, (int)k) + doy;
 	return z1 + epo[e] - 2400000U;
 }
 
@@ -183,12 +192,16 @@ mjd2hij(hij_typ_t t, hij_epo_t e, mjd_t j)
 /* integer only version of Gent's converter */
 	const unsigned int z = j + 2400000U - epo[e];
 	const unsigned int cyc = z / 10631U;
-	const unsigned int z1 = z % 10631U;
-	const unsigned int k = (3000U * z1 - tsh[t]) / 1063100U - !z1;
-	const unsigned int z2 = z1 - (((int)k * 1063100 + tsh[t]) / 3000) + !z1;
+	const int z1 = (int)(z % 10631U);
+	/* year of the cycle, the last day of a cycle may belong to year -1 */
+	const int n = 3000 * z1 - tsh[t];
+	const int k = n >= 0 ? n / 1063100 : -1;
+	const unsigned int z2 = z1 - hij_ybeg(t, k);
 	/* output */
 	const unsigned int y = 30U * cyc + k;
-	const unsigned int m = (10000U * z2 + 285001U) / 295000U;
+	/* day 355 of an intercalary year is Dhu al-Hijja 30 */
+	const unsigned int mr = (10000U * z2 + 285001U) / 295000U;
+	const unsigned int m = mr <= 12U ? mr : 12U;
 	const unsigned int d = z2 - (295001 * m - 290000U) / 10000U;
 	return (struct ymd_s){y, m, d};
 }
@@ -223,15 +236,13 @@ __ndim_greg(unsigned int y, unsigned int m)
 static __attribute__((const, pure)) inline bool
 __hij_inty_p(hij_typ_t t, hij_epo_t UNUSED(e), unsigned int y)
 {
-/* do a trial conversion to mjd and back, see whether we end up with Dhu 30
+/* a year is intercalary when the next one begins 355 days later
  * type I:   2, 5, 7, 10, 13, 15, 18, 21, 24, 26 & 29 as intercalary years
  * type II:  2, 5, 7, 10, 13, 16, 18, 21, 24, 26 & 29 as intercalary years
  * type III: 2, 5, 8, 10, 13, 16, 19, 21, 24, 27 & 29 as intercalary years
  * type IV:  2, 5, 8, 11, 13, 16, 19, 21, 24, 27 & 30 as intercalary years */
-	const unsigned int k = y % 30U;
-	const unsigned int z1 = ((k * 1063100U + tsh[t]) / 3000U + 355U) % 10631U;
-	const unsigned int kr = (3000U * z1 - tsh[t]) / 1063100U - !z1;
-	return z1 - (((int)kr * 1063100 + tsh[t]) / 3000) + !z1 != 1;
+	const int k = (int)(y % 30U);
+	return hij_ybeg(t, k + 1) - hij_ybeg(t, k) == 355;
 }
 
 static __attribute__((const, pure)) inline unsigned int
